@@ -28,6 +28,7 @@ CLAUSES = {
     "C15.stats": 150000,            # per column x summary, unscale=True, vs. definition on the raw column
     "C15.stats.arg": 40000,         # per column x {targmax, targmin}
     "C15.stats.stored": 80000,      # per NaN-free column x summary, unscale=False, vs. the stored column
+    "C15.alias": 20000,             # per judged object: caller overwrites everything unscale()/summaries returned, object state intact
     "C15.ops": 10000,               # per executed taxa-axis operation
     "C15.generic": 10000,           # DenseScaledMatrix relations
 }
@@ -300,7 +301,7 @@ def P32(prec):
     return "/float32 source" if prec > 1.0 else ""
 
 
-def check_stats(ctx, obj, R, sts, mags, k, coords, tag="", prec=1.0):
+def check_stats(ctx, obj, R, sts, mags, k, coords, tag="", prec=1.0, judge=True):
     """Every per-trait summary on the original scale equals that summary of the raw values.
 
     Finding keys: for an object as returned by a constructor / non-mutating operation the input class is the class of the
@@ -309,10 +310,22 @@ def check_stats(ctx, obj, R, sts, mags, k, coords, tag="", prec=1.0):
     cls = type(obj); n, t = R.shape
     kcls = (lambda st, j: INPLACE + P32(prec)) if tag else (lambda st, j: O.keyclass(st, mags[j], k) + P32(prec))
     stored = numpy.array(obj.mat, dtype=float, copy=True)
+    snap = (numpy.array(obj.mat, copy=True), numpy.array(obj.location, copy=True), numpy.array(obj.scale, copy=True))
+    handed = []     # every array the object hands out: (site, call, array as returned)
+    try:
+        handed.append((site_of(cls, "unscale"), "unscale()", obj.unscale()))
+    except Exception:
+        pass
     for name in SUMM:
         site = site_of(cls, name)
         ok, val = guarded_call(ctx, "C15.stats", site, "any", coords, lambda: getattr(obj, name)(unscale=True))
         ok2, vst = guarded_call(ctx, "C15.stats.stored", site, "any", coords, lambda: getattr(obj, name)(unscale=False))
+        if ok:
+            handed.append((site, "%s(unscale=True)" % name, val))
+        if ok2:
+            handed.append((site, "%s(unscale=False)" % name, vst))
+        if not judge:
+            continue
         if ok:
             val = numpy.array(val, dtype=float, copy=True)
             if val.shape != (t,):
@@ -347,7 +360,10 @@ def check_stats(ctx, obj, R, sts, mags, k, coords, tag="", prec=1.0):
         ok, val = guarded_call(ctx, "C15.stats.arg", site, "any", coords, getattr(obj, name))
         if not ok:
             continue
-        val = numpy.asarray(val)
+        handed.append((site, "%s()" % name, val))
+        if not judge:
+            continue
+        val = numpy.array(val, copy=True)
         if val.shape != (t,):
             ctx.check("C15.stats.arg", False, site, "one index per trait", "any", witness={"shape": list(val.shape)}, coords=coords)
             continue
@@ -370,6 +386,39 @@ def check_stats(ctx, obj, R, sts, mags, k, coords, tag="", prec=1.0):
     same = numpy.array_equal(stored, numpy.asarray(obj.mat, dtype=float), equal_nan=True)
     ctx.check("C15.stats", same, site_of(cls, "tmax"), "summary calls leave the stored values unchanged", "any",
               witness={"before": stored, "after": obj.mat}, coords=coords)
+    check_alias(ctx, obj, handed, snap, coords)
+
+
+def check_alias(ctx, obj, handed, snap, coords):
+    """C15.alias: what unscale() and the summaries hand out belongs to the caller.  The caller overwrites every returned
+    array; the object's stored values, location and scale must be what they were (so that it still reproduces ITS raw values).
+    Only when they are not, the culprit is looked up with numpy.shares_memory (one key per method that shares its state)."""
+    for _, _, arr in handed:
+        if isinstance(arr, numpy.ndarray) and arr.size and arr.flags.writeable:
+            try:
+                arr[...] = 77 if arr.dtype.kind in "iu" else 7.7e7
+            except Exception:
+                pass
+    now = (numpy.asarray(obj.mat), numpy.asarray(obj.location), numpy.asarray(obj.scale))
+    intact = all(a.shape == b.shape and numpy.array_equal(a, b, equal_nan=True) for a, b in zip(snap, now))
+    plain = bool(numpy.all(snap[1] == 0.0)) and bool(numpy.all(snap[2] == 1.0))
+    icls = "zero location and unit scale" if plain else "standardised matrix"
+    if intact:
+        ctx.ok("C15.alias")
+        return
+    culprits = [(site, call) for site, call, arr in handed if isinstance(arr, numpy.ndarray)
+                and any(numpy.shares_memory(arr, x) for x in now)]
+    for site, call in culprits or [(site_of(type(obj), "unscale"), "?")]:
+        ctx.check("C15.alias", False, site, "returned array does not share memory with the object (caller may overwrite it)", icls,
+                  what="C15.alias: %s returns an array that is the object's own %s; after the caller wrote into it the object no longer "
+                  "reproduces its raw values" % (call, "state"), witness={"call": call, "stored_before": snap[0], "location_before": snap[1],
+                                                                           "scale_before": snap[2], "stored_after": now[0],
+                                                                           "location_after": now[1], "scale_after": now[2]}, coords=coords)
+    # repair the object so that the history can go on (the finding is recorded)
+    try:
+        obj.mat = numpy.array(snap[0], copy=True); obj.location = numpy.array(snap[1], copy=True); obj.scale = numpy.array(snap[2], copy=True)
+    except Exception:
+        pass
 
 
 # ------------------------------------------------------------------ family: build
@@ -379,7 +428,10 @@ def case_build(ctx, c):
     cls = classes[int(g.integers(3))]
     n = rand_n(g); t = int(g.integers(1, 5))
     R, ccs = gen_matrix(g, n, t)
-    intdt = g.random() < 0.05
+    if g.random() < 0.04:          # every trait constant zero: from_numpy gives location 0 and scale 1 (values stored as they are)
+        R = numpy.zeros((n, t)); ccs = ["constant-short-binary"] * t
+    ctor = g.random() < 0.06       # built with the constructor and its default location 0.0 / scale 1.0: raw values ARE the stored ones
+    intdt = (not ctor) and g.random() < 0.05
     if intdt:
         R = numpy.round(numpy.clip(numpy.nan_to_num(R, nan=3.0), -1e12, 1e12)); ccs = ["int64-input"] * t
     f32dt = (not intdt) and g.random() < 0.06
@@ -399,14 +451,25 @@ def case_build(ctx, c):
     site = site_of(cls, "from_numpy")
     arg = R.astype("int64") if intdt else (R.astype("float32") if f32dt else R.copy())
     lab = labels(range(n)) if g.random() < 0.7 else {}
-    ok, obj = guarded_call(ctx, "C15.roundtrip", site, "any", coords,
-                           lambda: cls.from_numpy(arg, trait=traits(t), **lab), witness={"raw": R})
+    if ctor:
+        ctx.sumnote("constructor-built matrices with default location 0.0 / scale 1.0")
+        site = site_of(cls, "__init__")
+        dflt = cls is bv_classes()[0] and g.random() < 0.5
+        ok, obj = guarded_call(ctx, "C15.roundtrip", site, "any", coords,
+                               lambda: cls(arg, trait=traits(t), **lab) if dflt else cls(arg, location=0.0, scale=1.0, trait=traits(t), **lab),
+                               witness={"raw": R})
+    else:
+        ok, obj = guarded_call(ctx, "C15.roundtrip", site, "any", coords,
+                               lambda: cls.from_numpy(arg, trait=traits(t), **lab), witness={"raw": R})
     if not ok:
         return
     sts, mags = col_stats(R)
     check_roundtrip(ctx, obj, R, sts, mags, 0, site, coords, roweps=roweps)
-    check_stored(ctx, obj, R, sts, mags, 0, site, coords, prec=prec)
-    check_stats(ctx, obj, R, sts, mags, 0, coords, prec=prec)
+    if not ctor:
+        check_stored(ctx, obj, R, sts, mags, 0, site, coords, prec=prec)
+    # constructor-built: the user vouches for location/scale, so summaries are called (and their returned arrays overwritten)
+    # but only the round trip is judged
+    check_stats(ctx, obj, R, sts, mags, 0, coords, prec=prec, judge=not ctor)
     # the summaries must not have disturbed the object
     un = numpy.asarray(obj.unscale(), dtype=float)
     mok, vok, _, first = O.compare_matrix(un, R, mags, 0, roweps)
@@ -474,6 +537,12 @@ def _case_ops(ctx, c):
         fm = src == "f"; im = src == "i"
         U[fm] = U[fm].astype("float32").astype("float64")
         U[im] = numpy.round(numpy.clip(numpy.nan_to_num(U[im], nan=7.0), -1e12, 1e12))
+    if g.random() < 0.35:            # taxa that are missing for every trait
+        for i in g.choice(NU, int(g.integers(1, 9)), replace=False):
+            if src[i] != "i":
+                U[int(i), :] = numpy.nan
+    if g.random() < 0.03:            # every trait constant zero: location 0 and scale 1 throughout the history
+        U[:] = 0.0
     byclass = {k_: [int(i) for i in numpy.flatnonzero(src == k_)] for k_ in "dfi"}
     sts_u, mags_u = col_stats(U)       # magnitudes over the universe bound every location that can occur
     n0 = min(rand_n(g), 40)
@@ -811,16 +880,22 @@ def _case_ops(ctx, c):
                     b.to_hdf5(h5path, grp)
                     return cls.from_hdf5(h5path, grp)
             elif op == "pandas round trip":
-                desc = "to_pandas(unscale=True) -> from_pandas"
-                call = lambda: cls.from_pandas(b.to_pandas(unscale=True))      # noqa: E731
+                nolab = g.random() < 0.45
+                lk = {"taxa_col": None, "taxa_grp_col": None} if nolab else {}
+                vform = "label columns switched off" if nolab else "with label columns"
+                desc = "to_pandas(unscale=True) -> from_pandas (%s)" % vform
+                call = lambda: cls.from_pandas(b.to_pandas(unscale=True, **lk), **lk)      # noqa: E731
             else:
-                desc = "to_csv(unscale=True) -> from_csv(float_precision=round_trip)"
+                nolab = g.random() < 0.45
+                lk = {"taxa_col": None, "taxa_grp_col": None} if nolab else {}
+                vform = "label columns switched off" if nolab else "with label columns"
+                desc = "to_csv(unscale=True) -> from_csv(float_precision=round_trip) (%s)" % vform
 
                 def call():
-                    b.to_csv(csvpath, unscale=True)
+                    b.to_csv(csvpath, unscale=True, **lk)
                     # pandas' default float parser is not exact (-0.0003102630688626493 reads back as -0.0003102630688626):
                     # the text precision of CSV belongs to the persistence property (C16); here the exact parser is requested
-                    return cls.from_csv(csvpath, float_precision="round_trip")
+                    return cls.from_csv(csvpath, float_precision="round_trip", **lk)
             if generic:
                 desc = desc.replace(op, "%s[axis=%d]" % (gname, ax), 1)
             if gname in ("insert", "incorp", "adjoin", "append", "concat") and not trait_op:
@@ -930,6 +1005,13 @@ def _case_ops(ctx, c):
                 # a result built by the standardising constructor is that constructor's responsibility
                 check_stored(ctx, obj, R, sts, mg, k, site0 if _FN[0] > fn0 else site, coords, derived=True, prec=prec_of(lids))
             check_stats(ctx, obj, R, sts, mg, k, coords, tag, prec_of(lids))
+            if obj.taxa is None and io_op:
+                # read back without label columns: the user puts the labels back (rows were identified by position)
+                try:
+                    lb = labels(lids); obj.taxa = lb["taxa"]; obj.taxa_grp = lb["taxa_grp"]
+                except Exception as e:
+                    ctx.raised("re-attaching labels", e)
+                    return
             b, ids, tids = obj, lids, ltids
     finally:
         for pth in (h5path, csvpath):
